@@ -196,6 +196,8 @@ def probe_lines(p, extra='', actor='command-line'):
         return ['exit-code -from -rel-home probe.sh ' + args, '    == 0']
     if kind == 'pgmsym':
         return ['run @ G ' + args]
+    if kind == 'stdinsrc':
+        return ['stdin = -stdout-from -rel-home probe.sh ' + args]
     if kind == 'atc':
         # the action to check sees the act set WHATEVER the actor: command line (file / shell), file interpreter
         if actor == 'shell':
@@ -232,7 +234,9 @@ def concretize(case):
     actor = actor_of(case)
     items = []
     for j, p in enumerate(case['probes']):
-        if p['kind'] != 'envsrc':
+        if p['kind'] == 'stdinsrc':        # named at the very end of [setup], started for the act phase
+            items.append(((10 ** 6, 0, j), 'setup', probe_lines(p)))
+        elif p['kind'] != 'envsrc':
             items.append(((p['at'], 0, j), p['ph'], probe_lines(p, actor=actor)
                           + (['run -rel-home probe.sh canary-after-%s' % pid(p)] if p['killed'] and p['ph'] != 'act'
                              else [])))
